@@ -8,6 +8,7 @@ mod fam_pk;
 mod fam_sema;
 mod fam_semt;
 mod fam_semw;
+mod fam_scope;
 mod sema;
 mod fam_tree;
 mod fam_use;
@@ -33,6 +34,7 @@ fn main() {
         "semt" => fam_semt::run(rest),
         "semw" => fam_semw::run(rest),
         "use" => fam_use::run(rest),
+        "scope" => fam_scope::run(rest),
         f => {
             eprintln!("unknown family {f}");
             std::process::exit(2);
